@@ -131,6 +131,17 @@ class SvAffine(_FloatOp):
         return FloatDataType(data.data * gain + bias)
 
 
+class SvSlow(_FloatOp):
+    """Stalls for `delay` simulated seconds (slow job), then adds 0.5."""
+
+    def _process_logic(self, data, delay: float = 0.0):
+        _invoke("SvSlow", {"delay": delay}, data)
+        w = _world.WORLD
+        if w is not None and delay:
+            w.stall(float(delay))
+        return FloatDataType(data.data + 0.5)
+
+
 class SvCtxWriterA(_FloatOp):
     """Writes declared context key ``wa``."""
 
@@ -303,7 +314,7 @@ class SvBadCtxProc(ContextProcessor):
 
 LEAF_NAMES = [
     "SvSource", "SvSourceDefault", "SvPayloadSource", "SvAdd", "SvAddDefault", "SvMul",
-    "SvMulDefault", "SvAffine", "SvCtxWriterA", "SvCtxWriterB", "SvBadWriter", "SvToText",
+    "SvMulDefault", "SvAffine", "SvSlow", "SvCtxWriterA", "SvCtxWriterB", "SvBadWriter", "SvToText",
     "SvTextLen", "SvCollSum", "SvProbe", "SvProbeParam", "SvProbeDefault", "SvFileSink",
     "SvNullSink", "SvCtxCombine", "SvBadCtxProc",
 ]
